@@ -52,6 +52,10 @@ def draw_labels(rng, dtype, p, mode):
             v = rng.randrange(0, 1 << 32)
         elif mode == "top":
             v = top - rng.randrange(0, 4 * p + 4)
+        elif mode == "at32":
+            # the 32-bit boundary itself: the largest label is exactly 2^32 (or one off)
+            v = rng.choice([1 << 32, 1 << 32, (1 << 32) - 1, rng.randrange(0, 6), rng.randrange(0, 1 << 32)]) \
+                if out else rng.choice([1 << 32, 1 << 32, (1 << 32) + 1])
         elif mode == "above32":
             v = (1 << 32) + rng.randrange(0, 1 << 20) * rng.choice([1, 1 << 12])
         elif mode == "above53":
@@ -92,7 +96,7 @@ def gen_array(ctx, rng, budget):
     else:
         raise tlc.MachineryError("input generator could not satisfy its constraints")
     X, Y, Z = shape
-    modes = ["small", "u32", "top", "mixed"] + (["above32", "above53", "above53"] if dtype == "uint64" else [])
+    modes = ["small", "u32", "top", "mixed"] + (["above32", "above53", "above53", "at32"] if dtype == "uint64" else [])
     mode = rng.choice(modes)
     share = rng.random() < 0.5
     arr = np.zeros((C, Z, Y, X), dtype=dtype)
